@@ -8,6 +8,10 @@ struct lim_a { static const size_t state_count_cap = 8;  static const size_t max
 struct lim_b { static const size_t state_count_cap = 12; static const size_t max_sit_count_per_state_cap = 24; };
 struct lim_c { static const size_t state_count_cap = 18; static const size_t max_sit_count_per_state_cap = 36; };
 struct lim_d { static const size_t state_count_cap = 28; static const size_t max_sit_count_per_state_cap = 60; };
+// the two caps are independent: levels whose per-state cap is SMALLER than the state cap (the README's own example has that shape)
+struct lim_e { static const size_t state_count_cap = 40; static const size_t max_sit_count_per_state_cap = 12; };
+struct lim_f { static const size_t state_count_cap = 26; static const size_t max_sit_count_per_state_cap = 18; };
+using TTe = tpl::T20<lim_e>; using TTf = tpl::T20<lim_f>;
 using TTa = tpl::T20<lim_a>; using TTb = tpl::T20<lim_b>; using TTc = tpl::T20<lim_c>; using TTd = tpl::T20<lim_d>;
 
 struct CapOutcome { bool constructed = false; bool loud = false; bool monitor = false; std::string exc; };
@@ -84,6 +88,8 @@ struct P_C12b
         v = cap_level<TTb>(c, pr, reference, st, near, "12/24"); if (v.k == Verdict::FAIL) return v;
         v = cap_level<TTc>(c, pr, reference, st, near, "18/36"); if (v.k == Verdict::FAIL) return v;
         v = cap_level<TTd>(c, pr, reference, st, near, "28/60"); if (v.k == Verdict::FAIL) return v;
+        v = cap_level<TTe>(c, pr, reference, st, near, "40/12"); if (v.k == Verdict::FAIL) return v;
+        v = cap_level<TTf>(c, pr, reference, st, near, "26/18"); if (v.k == Verdict::FAIL) return v;
         if (near && st.counting && st.nontriv(g.hash()))
         {
             st.label("nontrivial");
